@@ -7,6 +7,7 @@ monotonicity, equal durations, round trip, agreement with a LinearScale on
 oracle-computed epoch milliseconds).
 """
 
+import math
 from datetime import datetime, timedelta
 from fractions import Fraction
 
@@ -78,6 +79,14 @@ def run_case(ctx, S, a, b, r, fracs, subclass=False):
             if timedom.LO - timedelta(days=366 * 600) < t < timedom.HI + timedelta(days=366 * 600):
                 ts.append(t)
         ts = [a, b] + ts
+        if hash((a, b, "us")) % 3 == 0:
+            # query instants finer than a millisecond (the domain stays at ms resolution): positions are proportional to the
+            # elapsed time of the instant as given, not of its whole-millisecond part (seeded/C07o)
+            for f in fracs:
+                t = a + timedelta(microseconds=int(span_us * f) // 1000 * 1000 + 1 + (hash((a, f)) % 998))
+                if min(a, b) - abs(b - a) < t < max(a, b) + abs(b - a):
+                    ts.append(t)
+            ctx.path("sub-millisecond-query-instants")
         ys = [s(W(t)) for t in ts]
         dr = abs(r[1] - r[0])
         mag = abs(r[0]) + abs(r[1])
@@ -87,6 +96,9 @@ def run_case(ctx, S, a, b, r, fracs, subclass=False):
             frac = Fraction((t - a) // US, span_us)
             exp = Fraction(r[0]) + frac * (Fraction(r[1]) - Fraction(r[0]))
             tol = 1e-9 * dr * (1 + abs(float(frac))) + 1e-9 * mag
+            if t.microsecond % 1000:
+                # not a whole number of epoch milliseconds: half an ulp of ~1e12 ms, magnified by range span / domain span
+                tol += 4 * math.ulp(max(abs((q - EPOCH) / timedelta(milliseconds=1)) for q in (t, a, b))) * dr / (abs(span_us) / 1000.0)
             if abs(y - float(exp)) > tol:
                 probs.append("not proportional to elapsed time at %s: got %r expected %r" % (t.isoformat(), y, float(exp)))
                 break
